@@ -296,6 +296,8 @@ func pushClass(err error) int {
 	return 9
 }
 
+func qkey(d ocispec.Descriptor) string { return d.MediaType + "|" + string(d.Digest) + "|" + fmt.Sprint(d.Size) }
+
 func short(d ocispec.Descriptor) string {
 	dg := string(d.Digest)
 	if len(dg) > 15 {
@@ -436,9 +438,9 @@ func (h *H) list(q ocispec.Descriptor) []ocispec.Descriptor {
 	}
 	sort.Strings(keys)
 	if cls == 0 {
-		h.lastList[short(q)] = keys
+		h.lastList[qkey(q)] = keys
 	} else {
-		delete(h.lastList, short(q))
+		delete(h.lastList, qkey(q))
 	}
 	h.nListed += len(got)
 	h.ops = append(h.ops, "OpList "+h.desc(q))
@@ -495,10 +497,11 @@ func (h *H) reopenCheck() {
 		repo, err := registry.NewOCIRepository(h.dir, registry.RepositoryOptions{})
 		if err != nil {
 			// oras-go's oci.New indexes the whole graph and gives up on a stored manifest that is
-			// referenced with another size (a subject descriptor differing in the size field):
+			// referenced with another size (a subject descriptor differing in the size field) or on a
+			// manifest-typed reference whose digest string is invalid (upper-case hex):
 			// outside registry/repository.go, counted and reported, not a violation of C19
 			if h.sizeVariant && strings.Contains(err.Error(), "invalid OCI Image Index") {
-				h.reopen = "layout-not-reopenable(size-variant-of-a-stored-manifest)"
+				h.reopen = "layout-not-reopenable(a manifest-typed reference with another size or an invalid digest)"
 				return
 			}
 			h.viol = append(h.viol, "reopen: NewOCIRepository failed on the layout just written: "+err.Error())
@@ -507,7 +510,7 @@ func (h *H) reopenCheck() {
 		h.reopen = "same-listings"
 
 		for _, q := range h.queries {
-			want, ok := h.lastList[short(q)]
+			want, ok := h.lastList[qkey(q)]
 			if !ok {
 				continue
 			}
